@@ -81,7 +81,7 @@ class _Runner(_Processor):
             {self.cancel_event_task, process_task},
             return_when=asyncio.FIRST_COMPLETED,
         )
-        if self.cancel_event.is_set():
+        if self.cancel_event.is_set() and not process_task.done():
             process_task.cancel()
             await self._conn.message_broker.reject(key)
             return
